@@ -52,7 +52,50 @@ let () =
         expect "PID"; let pid = onum () in
         expect "REQ"; let req = (let t = next () in if t = "-" then None else Some (nat_of_int (int_of_string t))) in
         expect "CRASH";
-        let crash = (let t = next () in if t = "-" then None else let a = nz () in Some (str_of_tok t, a)) in
+        let crash = (let t = next () in
+          if t = "-" then None else begin
+            let reason = str_of_tok t in
+            let addr = nz () in
+            expect "ADJ";
+            let adj = (match next () with
+              | "-" -> None
+              | "nc" -> let a = nz () in Some (AdjNonCanonical a)
+              | _ -> let o = nz () in Some (AdjNull o)) in
+            expect "INSTR"; let instr = ostr () in
+            expect "ACC";
+            let acc = (let t = next () in if t = "-" then None else
+              Some (List.init (int_of_string t) (fun _ ->
+                let a = nz () in let sz = onum () in let g = next () in let ty = nz () in
+                { a_addr = a; a_size = sz; a_guard = (g = "1"); a_type = ty }))) in
+            expect "IPU";
+            let ipu = (match next () with
+              | "-" -> None
+              | "none" -> Some IpuNone
+              | _ -> let a = nz () in let g = next () in Some (IpuUpdate (a, g = "1"))) in
+            expect "FLIPS";
+            let nf = int_of_string (next ()) in
+            let flips = List.init nf (fun _ ->
+              let a = nz () in let reg = ostr () in let nc = next () in let nl = next () in let lo = next () in
+              let nb = nz () in let po = next () in
+              { bf_addr = a; bf_reg = reg; bf_nc = (nc = "1"); bf_null = (nl = "1"); bf_low = (lo = "1");
+                bf_nearby = nb; bf_poison = (po = "1") }) in
+            expect "INC";
+            let ni = int_of_string (next ()) in
+            let inc = List.init ni (fun _ -> nz ()) in
+            Some { cr_reason = reason; cr_addr = addr; cr_adjusted = adj; cr_instr = instr; cr_accesses = acc;
+                   cr_ipu = ipu; cr_flips = flips; cr_incons = inc }
+          end) in
+        expect "SYS";
+        let osi = nz () in let osraw = nz () in let osver = ostr () in let cpui = nz () in
+        let cpuinfo = ostr () in let cpucount = nz () in let micro = onum () in
+        let sys = { sy_os = osi; sy_os_raw = osraw; sy_os_ver = osver; sy_cpu = cpui; sy_cpu_info = cpuinfo;
+                    sy_cpu_count = cpucount; sy_microcode = micro } in
+        expect "LSB";
+        let lsb = (let t = next () in if t = "-" then None else
+          let i = str_of_tok t in let r = str_of_tok (next ()) in let c = str_of_tok (next ()) in let d = str_of_tok (next ()) in
+          Some (((i, r), c), d)) in
+        expect "MAPC"; let mapc = onum () in
+        expect "CERT"; let cert = (next () = "1") in
         expect "TH";
         let n = int_of_string (next ()) in
         let threads = List.init n (fun _ ->
@@ -67,7 +110,7 @@ let () =
             let fb = onum () in
             let file = ostr () in
             let ln = onum () in
-            let trust = str_of_tok (next ()) in
+            let trust = nz () in
             expect "UNL";
             let u = int_of_string (next ()) in
             let unl = List.init u (fun _ ->
@@ -92,7 +135,7 @@ let () =
         let unl = List.init u (fun _ -> let b = nz () in let s = nz () in let nm = str_of_tok (next ()) in
                                         { m_base = b; m_size = s; m_name = nm }) in
         let st = { s_width = w; s_pid = pid; s_threads = threads; s_requesting = req; s_registers = regs;
-                   s_modules = mods; s_unloaded = unl; s_crash = crash } in
+                   s_modules = mods; s_unloaded = unl; s_crash = crash; s_sys = sys; s_lsb = lsb; s_mapcount = mapc; s_cert = cert } in
         let b = Buffer.create 4096 in
         (match run_state prof st with
          | Some cps -> List.iter (fun c -> utf8_encode b (int_of_z c)) cps
